@@ -72,6 +72,13 @@ MUTANTS = [
     ("C20", R + "_operations/_chain.py", "        if lhs.columns != rhs.columns:", "        if not lhs.columns <= rhs.columns:", "Chain accepts operands with different columns"),
     ("C06", R + "_operations/_join.py", "        if self.predicate.as_trivial() is True:\n            # Joining to the join identity is only a no-op when there is no\n            # join predicate left to apply.\n            if lhs.is_join_identity:", "        if True:\n            if lhs.is_join_identity:", "join-identity elision drops the predicate again (_begin_apply)"),
     ("C06", R + "_operations/_join.py", "        if self.predicate.as_trivial() is True:\n            if lhs.is_join_identity:\n                return rhs", "        if True:\n            if lhs.is_join_identity:\n                return rhs", "join-identity elision drops the predicate again (_finish_apply)"),
+    ("C09", R + "sql/_engine.py", "                        result = self.to_payload(target).copy()\n                        result.columns_available[tag]", "                        result = self.to_payload(target)\n                        result.columns_available[tag]", "to_payload mutates the target's payload (no copy)"),
+    ("C09", R + "_diagnostics.py", "                messages = list(messages)\n", "", "Diagnostics appends to the leaf's own message list"),
+    ("C09", R + "_operations/_calculation.py", "        result = set(target.columns)\n        result.add(self.tag)", "        result = target.columns\n        result.add(self.tag)", "Calculation.applied_columns mutates the target's column set"),
+    ("C09", R + "sql/_payload.py", "where=list(self.where)", "where=self.where", "Payload.copy shares the where list"),
+    ("C09", R + "_operations/_sort.py", "@dataclasses.dataclass(frozen=True)\nclass SortTerm:", "@dataclasses.dataclass\nclass SortTerm:", "SortTerm no longer frozen (F2 returns)"),
+    ("C09", R + "_columns/_container.py", "return ColumnExpressionSequence(tuple(items), dtype)", "return ColumnExpressionSequence(items, dtype)", "sequence() stores the caller's list (F3 returns)"),
+    ("C09", R + "_marker_relation.py", "        return dataclasses.replace(self, target=target, payload=payload)", "        object.__setattr__(self, \"target\", target)\n        return self", "reapply mutates the marker in place"),
 ]
 
 
